@@ -321,6 +321,9 @@ func (g *goCompiler) compileBin(e *CExpr, old bool, bound map[string]gval) gval 
 			if a.code == "nil" || b.code == "nil" {
 				return gval{code: "(" + a.code + " " + e.Op + " " + b.code + ")", k: kBool}
 			}
+			if a.k == kSeq || b.k == kSeq {
+				return gval{code: neg + "gowpSeqEq(" + a.code + ", " + b.code + ")", k: kBool}
+			}
 			return gval{code: neg + "reflect.DeepEqual(" + a.code + ", " + b.code + ")", k: kBool}
 		case a.k == kBool && b.k == kBool:
 			return gval{code: "((" + a.code + ") " + e.Op + " (" + b.code + "))", k: kBool}
@@ -516,7 +519,7 @@ func (g *goCompiler) compileCall(e *CExpr, old bool, bound map[string]gval) gval
 		return gval{code: "math.Pow(" + fl(0) + ", " + fl(1) + ")", k: kFloat}
 	case "same":
 		need(2)
-		return gval{code: "reflect.DeepEqual(" + arg(0).code + ", " + arg(1).code + ")", k: kBool}
+		return gval{code: "gowpSeqEq(" + arg(0).code + ", " + arg(1).code + ")", k: kBool}
 	case "tdiv":
 		need(2)
 		return gval{code: "(int(" + arg(0).code + ") / int(" + arg(1).code + "))", k: kInt}
@@ -651,7 +654,7 @@ func (g *goCompiler) snapshot(name string, ty *Ty) string {
 	copySlices := func(dst, src string, st *Ty) {
 		for _, f := range st.Struct.Fields {
 			if f.Ty.K == TSlice {
-				fmt.Fprintf(&b, "\t%s.%s = append(%s(nil), %s.%s...)\n", dst, f.Name, g.rc.goType(f.Ty), src, f.Name)
+				fmt.Fprintf(&b, "\tif %s.%s != nil {\n\t\t%s.%s = append(make(%s, 0, len(%s.%s)), %s.%s...)\n\t}\n", src, f.Name, dst, f.Name, g.rc.goType(f.Ty), src, f.Name, src, f.Name)
 			}
 		}
 	}
@@ -663,7 +666,7 @@ func (g *goCompiler) snapshot(name string, ty *Ty) string {
 		}
 		b.WriteString("\t}\n")
 	case TSlice:
-		fmt.Fprintf(&b, "\t%s := append(%s(nil), %s...)\n", on, g.rc.goType(ty), name)
+		fmt.Fprintf(&b, "\tvar %s %s\n\tif %s != nil {\n\t\t%s = append(make(%s, 0, len(%s)), %s...)\n\t}\n", on, g.rc.goType(ty), name, on, g.rc.goType(ty), name, name)
 	case TStruct:
 		fmt.Fprintf(&b, "\t%s := %s\n", on, name)
 		copySlices(on, name, ty)
@@ -699,11 +702,11 @@ func (g *goCompiler) frameCheck(_ []string, assigns []*CExpr) string {
 		n := v.Name()
 		switch ty.K {
 		case TSlice:
-			fmt.Fprintf(&b, "\tif len(%s) > 0 && !reflect.DeepEqual(%s, old_%s) {\n\t\tt.Errorf(\"GOWP-REPLAY-FAIL: frame violated on the real code: argument %s was modified: before %%v after %%v\", old_%s, %s)\n\t}\n", n, n, n, n, n, n)
+			fmt.Fprintf(&b, "\tif len(%s) > 0 && !reflect.DeepEqual(%s, old_%s) {\n\t\treturn fmt.Sprintf(\"frame violated on the real code: argument %s was modified: before %%v after %%v\", old_%s, %s), desc, false\n\t}\n", n, n, n, n, n, n)
 		case TPtr:
-			fmt.Fprintf(&b, "\tif %s != nil && !reflect.DeepEqual(*%s, *old_%s) {\n\t\tt.Errorf(\"GOWP-REPLAY-FAIL: frame violated on the real code: *%s was modified: before %%v after %%v\", *old_%s, *%s)\n\t}\n", n, n, n, n, n, n)
+			fmt.Fprintf(&b, "\tif %s != nil && !reflect.DeepEqual(*%s, *old_%s) {\n\t\treturn fmt.Sprintf(\"frame violated on the real code: *%s was modified: before %%v after %%v\", *old_%s, *%s), desc, false\n\t}\n", n, n, n, n, n, n)
 		case TStruct:
-			fmt.Fprintf(&b, "\tif !reflect.DeepEqual(%s, old_%s) {\n\t\tt.Errorf(\"GOWP-REPLAY-FAIL: frame violated on the real code: storage reachable from argument %s was modified: before %%v after %%v\", old_%s, %s)\n\t}\n", n, n, n, n, n)
+			fmt.Fprintf(&b, "\tif !reflect.DeepEqual(%s, old_%s) {\n\t\treturn fmt.Sprintf(\"frame violated on the real code: storage reachable from argument %s was modified: before %%v after %%v\", old_%s, %s), desc, false\n\t}\n", n, n, n, n, n)
 		}
 	}
 	check(g.sig.Recv())
